@@ -108,6 +108,9 @@ type InterpModel struct {
 	// SignalsFor decides which signal types a child evaluation may return
 	SignalsFor func(childType types.Type) []int
 	Undecided  []string
+	// MainMode: used for package main — module calls are events (nothing is inlined) and loads of
+	// the two error flags fork over both values
+	MainMode bool
 }
 
 func NewInterpModel(p *Prog, scenario string) *InterpModel {
@@ -448,6 +451,28 @@ func (m *InterpModel) Call(mc *Machine, st *State, call ssa.CallInstruction, cal
 		}
 		return []Outcome{{Result: res}}, true
 	}
+	if m.MainMode {
+		e := m.ev(in, "call", append([]string{m.p.FuncKey(callee)}, argStrings(args)...), "")
+		var res AV = Sym("r" + valName)
+		if v, ok := call.(ssa.Value); ok {
+			if tup, ok := v.Type().(*types.Tuple); ok {
+				ts := make([]AV, tup.Len())
+				for i := range ts {
+					ts[i] = Sym(fmt.Sprintf("r%s#%d", valName, i))
+				}
+				res = AV{K: KTuple, T: ts}
+			}
+		}
+		return []Outcome{{Result: res, Apply: func(s *State) {
+			// a call may change the flags: forget what earlier tests assumed
+			for k := range s.Facts {
+				if strings.Contains(k, "flag:") {
+					delete(s.Facts, k)
+				}
+			}
+			m.Emit(s, e)
+		}}}, true
+	}
 	// ---- module leaf value functions: an event with the raise fork; effectful helpers are inlined
 	if !ii.Effectful[callee] && callee != ii.Interpret && callee != ii.FuncCall {
 		was := m.raised(st)
@@ -535,6 +560,9 @@ func (m *InterpModel) variadic(mc *Machine, st *State, args []AV) []string {
 }
 
 func (m *InterpModel) LoadGlobal(mc *Machine, st *State, g *ssa.Global) ([]AV, bool) {
+	if m.MainMode && (g == m.ii.FlagRT || g == m.ii.FlagErr) {
+		return []AV{Sym("flag:" + g.Name())}, true
+	}
 	if g == m.ii.FlagRT {
 		// the flag test itself is an event (C06 needs to see where the flag is consulted)
 		return []AV{BoolV(m.raised(st))}, true
@@ -651,6 +679,23 @@ func (m *InterpModel) Branch(mc *Machine, st *State, in *ssa.If, cond AV, taken 
 		}
 	}
 	// flag tests
+	if u, ok := in.Cond.(*ssa.UnOp); ok && m.MainMode {
+		if g, ok := u.X.(*ssa.Global); ok && (g == m.ii.FlagRT || g == m.ii.FlagErr) {
+			m.Emit(st, m.ev(in, "flagtest", []string{g.Name()}, fmt.Sprint(taken)))
+			return
+		}
+	}
+	if cond.K == KSym && m.MainMode {
+		// other symbolic decisions of main (argument count, extension, read error)
+		t := taken
+		c := cond
+		if c.Neg {
+			t = !t
+			c.Neg = false
+		}
+		m.Emit(st, m.ev(in, "test", []string{c.S}, fmt.Sprint(t)))
+		return
+	}
 	if u, ok := in.Cond.(*ssa.UnOp); ok {
 		if g, ok := u.X.(*ssa.Global); ok && g == m.ii.FlagRT {
 			e := m.ev(in, "flagtest", nil, fmt.Sprint(taken))
